@@ -39,39 +39,61 @@ def optInt (toks : List String) (k : String) : Option (Option Int) :=
   | some s => (parseInt? s).map some
 
 /-- weights of the request: `wsh` = shape of the weights array as given to `Sense`, data `w` (rationals,
-    perfect squares); classified by the GENERATED `weights_per_coil` test exactly as the source does -/
-def getWeights (toks : List String) (n K : Nat) : Except String (Weights CR) :=
+    perfect squares), read the way numpy broadcasts it against `[coils, k-space]` (the DOCUMENTED rule, `Valid.wclass`
+    of Props/C16.lean — independent of the generated `weights_per_coil` test, which the generated factory applies itself) -/
+def getWeights (toks : List String) (n K : Nat) (kspnd : Int) : Except String (Weights CR × Int × Int) :=
   match kv toks "wsh" with
   | none => .error "err bad-op"
-  | some "none" => .ok .none
+  | some "none" => .ok (.none, 0, 0)
   | some s =>
-    match parseIntList? s, (kv toks "w").bind parseRatList?, (kv toks "kspnd").bind parseInt? with
-    | some wsh, some w, some kspnd =>
+    match parseIntList? s, (kv toks "w").bind parseRatList? with
+    | some wsh, some w =>
       if w.any (fun q => (ratSqrt? q).isNone) then .error "err inexact" else
       let wc : List CR := w.map fun q => ⟨q, 0⟩
-      let per := Gen.senseWeightsPerCoil wsh.length (wsh.headD 0) kspnd n
+      let per := decide ((wsh.length : Int) = kspnd + 1 ∧ wsh.headD 0 = (n : Int))
       if per then
-        if wc.length = n * K then .ok (.perCoil (chunk K n wc)) else .error "err shape"
+        if wc.length = n * K then .ok (.perCoil (chunk K n wc), wsh.length, wsh.headD 0) else .error "err shape"
       else
-        if wc.length = K then .ok (.shared wc) else .error "err shape"
-    | _, _, _ => .error "err bad-op"
+        if wc.length = K then .ok (.shared wc, wsh.length, wsh.headD 0) else .error "err shape"
+    | _, _ => .error "err bad-op"
 
+/-- request: `n R K b mps F` as before plus `ish` (image shape = `mps.shape[1:]`), `ishape=none|given`,
+    `cnd=none|<coord.ndim>`, `transp=0|1` -/
 def getOpts (toks : List String) : Except String (SenseOpts CR × Nat × Nat × Nat) :=
   let getN (k : String) := ((kv toks k).bind parseInt?).map Int.toNat
   let getC (k : String) := ((kv toks k).bind parseCRatList?).map ofPairs
+  let ishGiven : Option Bool := match kv toks "ishape" with
+    | some "none" => some false
+    | some "given" => some true
+    | _ => none
   match getN "n", getN "R", getN "K", optInt toks "b", getC "mps", getC "F" with
   | some n, some R, some K, some b, some mps, some F =>
-    if mps.length ≠ n * R ∨ F.length ≠ K * R then .error "err size" else
-    match getWeights toks n K with
-    | .error e => .error e
-    | .ok w => .ok ({ mps := chunk R n mps, F := chunk R K F, weights := w, batch := b, sqrt := crSqrt }, n, R, K)
+    match (kv toks "ish").bind parseIntList?, optInt toks "cnd", (kv toks "transp").bind parseInt?, ishGiven with
+    | some ish, some cnd, some transp, some ig =>
+      if mps.length ≠ n * R ∨ F.length ≠ K * R ∨ shapeProd ish ≠ (R : Int) then .error "err size" else
+      let kspnd : Int := match cnd with
+        | none => ish.length
+        | some d => d - 1
+      match getWeights toks n K kspnd with
+      | .error e => .error e
+      | .ok (w, wnd, ws0) =>
+        .ok ({ mps := chunk R n mps, mpsNdim := (ish.length : Int) + 1, ishapeLen := if ig then some (ish.length : Int) else none,
+               coordNdim := cnd, weights := w, wNdim := wnd, wShape0 := ws0, batch := b, transp := transp != 0,
+               F := chunk R K F, sqrt := crSqrt }, n, R, K)
+    | _, _, _, _ => .error "err bad-op"
   | _, _, _, _, _, _ => .error "err bad-op"
 
+/-- leaf letters of the reified tree: `F<image axes>` for an FFT (axes normalised to `0 … ndim-1`), `N` for
+    `NUFFT(coord)`, `Nt` for `NUFFT(-coord).H` -/
 def leafName : Leaf CR → String
   | .multiplyMaps _ => "S"
-  | .fourier _ _ _ => "F"
+  | .fourier (.fft axes ndim) _ _ _ => "F" ++ ".".intercalate (axes.map fun a => toString (pyMod a ndim))
+  | .fourier (.nufft false false) _ _ _ => "N"
+  | .fourier (.nufft true true) _ _ _ => "Nt"
+  | .fourier _ _ _ _ => "N?"
   | .multiplyWShared _ => "P"
   | .multiplyWCoil _ => "Q"
+  | .invalid => "!"
 
 def fmtSetup (s : ReconSetup) : String :=
   let ws := match s.wsource with | .none => "none" | .given => "given" | .estimated => "estimated"
